@@ -837,6 +837,28 @@ func check(id, tier string) int {
 				"run_index": c.Idx, "run_seed": c.Seed, "profile": prof, "repo_rev": repoRev(), "minimised": false, "message": firstLines(c.Stderr, 60)}
 			b, _ := json.MarshalIndent(rf, "", " ")
 			os.WriteFile(path, b, 0o644)
+			if kind == "hang" {
+				// A run is a pure function of its seed: a genuine non-termination
+				// replays. One that does not (the process was starved or paused
+				// long enough to trip the wall-clock watchdog) is not reported.
+				confirmed := false
+				for _, hc := range cs[:min(len(cs), 3)] {
+					rf["run_index"], rf["run_seed"] = hc.Idx, hc.Seed
+					rf["profile"] = spec.Profiles[int(hc.Idx%uint64(len(spec.Profiles)))]
+					hp := filepath.Join(verifRoot, "replays", fmt.Sprintf("%s-%d.json", spec.ID, hc.Seed))
+					hb, _ := json.MarshalIndent(rf, "", " ")
+					os.WriteFile(hp, hb, 0o644)
+					if ok, _, _ := replayFile(spec, bin, hp); ok {
+						confirmed, path, c = true, hp, hc
+						break
+					}
+					os.Remove(hp)
+				}
+				if !confirmed {
+					notes = append(notes, fmt.Sprintf("%d worker(s) tripped the wall-clock watchdog but the run(s) completed when replayed alone: machine load, not reported", len(cs)))
+					continue
+				}
+			}
 			nviol += len(cs)
 			exit = 1
 			fmt.Printf("VIOLATION property=%s replay=%s\n  rule=%s runs=%d run_seed=%d\n%s\n", spec.ID, path, kind, len(cs), c.Seed, indent(firstLines(c.Stderr, 40)))
